@@ -1218,8 +1218,9 @@ class OP4:
                 Number of values written per row.
             numlen : integer
                 Number of characters per value.
-            numform : string
-                Format string for numbers, eg: '%16.9E'.
+            numform : function
+                Formats one number in `numlen` characters, eg:
+                numform(1.0) is '%16.9E' % 1.0.
         """
         numlen = digits + 5 + self._expdigits  # -1.digitsE-009
         perline = 80 // numlen
@@ -1237,7 +1238,17 @@ class OP4:
             f"{cols:{int_width}}{rows:{int_width}}{form:8}{mtype:8}{name.upper():8s}"
             f"1P,{perline}E{numlen}.{digits}{addon}\n"
         )
-        numform = f"%{numlen}.{digits}E"
+        fmt = f"%{numlen}.{digits}E"
+        fmt1 = f"%{numlen}.{max(digits - 1, 0)}E"
+
+        def numform(value):
+            s = fmt % value
+            if len(s) > numlen:
+                # negative value with a three digit exponent, eg
+                # -2.5E-120: one digit less keeps it in its field
+                s = fmt1 % value
+            return s
+
         return cols, multiplier, perline, numlen, numform
 
     def _write_ascii(self, f, name, matrix, digits, form):
@@ -1268,10 +1279,10 @@ class OP4:
             neven = ((elems - 1) // perline) * perline
             for i in range(0, neven, perline):
                 for j in range(perline):
-                    f.write(numform % v[i + j])
+                    f.write(numform(v[i + j]))
                 f.write("\n")
             for i in range(neven, elems):
-                f.write(numform % v[i])
+                f.write(numform(v[i]))
             f.write("\n")
 
         if isinstance(matrix, np.ndarray):
@@ -1300,7 +1311,7 @@ class OP4:
                 vec.dtype = float
                 _write_col_data(f, vec, c, s, elems, perline, numform)
         f.write(f"{cols + 1:8}{1:8}{1:8}\n")
-        f.write(numform % 2**0.5)
+        f.write(numform(2**0.5))
         f.write("\n")
 
     @staticmethod
@@ -1342,7 +1353,7 @@ class OP4:
                     string.dtype = float
                     _write_data_string(f, string, r0, r1, multiplier, perline, numform)
         f.write(f"{cols + 1:8}{1:8}{1:8}\n")
-        f.write(numform % 2**0.5)
+        f.write(numform(2**0.5))
         f.write("\n")
 
     def _write_ascii_nonbigmat(self, f, name, matrix, digits, form):
@@ -1392,10 +1403,10 @@ class OP4:
             neven = ((elems - 1) // perline) * perline
             for i in range(0, neven, perline):
                 for j in range(perline):
-                    f.write(numform % string[i + j])
+                    f.write(numform(string[i + j]))
                 f.write("\n")
             for i in range(neven, elems):
-                f.write(numform % string[i])
+                f.write(numform(string[i]))
             f.write("\n")
 
         OP4._write_ascii_sparse(
@@ -1443,10 +1454,10 @@ class OP4:
             neven = ((elems - 1) // perline) * perline
             for i in range(0, neven, perline):
                 for j in range(perline):
-                    f.write(numform % string[i + j])
+                    f.write(numform(string[i + j]))
                 f.write("\n")
             for i in range(neven, elems):
-                f.write(numform % string[i])
+                f.write(numform(string[i]))
             f.write("\n")
 
         OP4._write_ascii_sparse(
